@@ -8,6 +8,9 @@ from .c03 import coherent, _variant
 from .c06 import insert_paths
 
 
+DELEGATING_MULTIPLY = ('plane.Pupil.multiply', 'plane.Image.multiply', 'plane.TiltInterface.multiply')
+
+
 def insert_stores(repo, intensity):
     fld = S('field')
     f, paths, _ = analyse(repo, 'field.insert', config={'intensity': intensity},
@@ -51,6 +54,10 @@ def run(chk, repo, tier):
     chk.clause('C07-i', 'the pointwise product with a plane: a one-element phasor inherits the shape and offset of the field (and vice versa); the product is taken on the overlap', 3)
     from .c06 import product_rules
     product_rules(chk, repo, 'C07-i')
+    # ... and which samples count as overlap (and whether two fields overlap at all, which also decides if intensity
+    # sums them coherently) is the extent arithmetic
+    from .extent_rules import extent_identities
+    extent_identities(chk, repo, 'C07-i')
     f, si = insert_stores(repo, TRUE)
     _, sc = insert_stores(repo, FALSE)
     n, ok, det = 0, True, ''
@@ -147,13 +154,30 @@ def run(chk, repo, tier):
     chk.ob('C07-e', 'D-flow', f.key, 'focal length forwarded', okf and n > 0, '', f.loc())
     chk.ob('C07-e', 'D-flow', f.key, 'pixel scale reconciled by _mul_pixelscale', okp and n > 0, '', f.loc())
     fp, paths, _ = analyse(repo, 'plane.Pupil.multiply', types={('sym', 'wavefront'): repo.cls('wavefront.Wavefront')})
-    okh = False
+    okh = bool(returns(paths))
     for p in returns(paths):
         sup = p.calls('plane.Plane.multiply')
         st = [e for e in p.writes() if e.data.get('how') == 'attrstore' and e.data.get('attr') == 'focal_length']
-        okh = len(sup) == 1 and len(st) == 1 and st[0].target == sup[0].result and \
+        okh = okh and len(sup) == 1 and len(st) == 1 and st[0].target == sup[0].result and \
             st[0].data['value'] == nf.attr(SELF, 'focal_length') and p.ret == sup[0].result
     chk.ob('C07-e', 'D-flow', fp.key, "the product takes the pupil's focal length (set on the new wavefront)", okh, '', fp.loc())
+
+    # planes that refine Plane (pupil, image, tilt elements) still act as the phasor: whatever else they do, every way
+    # through their multiply hands the wavefront to Plane.multiply and returns its product
+    for key in DELEGATING_MULTIPLY:
+        if not repo.has_func(key):
+            continue        # no override: Plane.multiply itself applies
+        fd, paths, _ = analyse(repo, key, types={('sym', 'wavefront'): repo.cls('wavefront.Wavefront')})
+        okd, det = bool(returns(paths)), ''
+        for p in returns(paths):
+            sup = p.calls('plane.Plane.multiply')
+            good = len(sup) == 1 and p.ret == sup[0].result and \
+                (sup[0].bound.get('wavefront') == WFR if sup[0].bound else WFR in (sup[0].data.get('args') or []))
+            if not good:
+                okd = False
+                det = f'[{conds_str(p)[:120]}] returns {fmt(p.ret)[:80]} ' + \
+                    ('without applying the plane (Plane.multiply is not called)' if not sup else 'which is not the product of Plane.multiply')
+        chk.ob('C07-e', 'D-flow', fd.key, 'every path returns the product of Plane.multiply(wavefront)', okd, det, fd.loc())
 
     # ---------------------------------------------------------------- C07-f
     facts = {}
